@@ -69,6 +69,8 @@ def alphabet(F, rng):
     add(1, 'get_trace', [t1, NONE, NONE])
     add(1, 'get_trace', [t0, 2, min(nz, 9)])
     add(1, 'get_trace', [t0, 1, min(nz, 3)])          # same column, same first z-block, ends earlier (chunk key must carry max_z)
+    if F['b'][1] < nx and F['b'][1] not in (t0, t1):
+        add(1, 'get_trace', [F['b'][1], NONE, NONE])   # first trace of the next crossline block: its bricks follow the previous column's on disk
     add(2, 'get_trace', [t1, NONE, NONE])
     add(1, 'read_correlated_diagonal', [0, NONE, NONE, NONE, NONE])
     add(1, 'read_anticorrelated_diagonal', [min(ni, nx) - 1, NONE, NONE, NONE, NONE])
@@ -254,6 +256,18 @@ def run(run):
             if preload or (not quick and K == 2):
                 hs = [full[i] for i in sorted(rng.choice(len(full), size=max(1, len(full) // 4), replace=False))]
             items += [(j, h, preload) for h in hs]
+        if D < 3:
+            # depth-3 "sandwiches" a ; m ; b (the full depth-3 set is the thorough tier): two data reads of one reader with any third call
+            # in between - what m leaves behind (a moved file handle, a replaced cache entry) must not reach b
+            data_ops = ('read_inline', 'read_crossline', 'read_zslice', 'read_subvolume', 'get_trace', 'read_subplane')
+            idx = [i for i, c in enumerate(A) if c['op'] in data_ops and c['r'] in (1, 3, 4, 6)]
+            pairs = [(a, b) for a in idx for b in idx if a != b and A[a]['r'] == A[b]['r'] and A[a]['op'] == A[b]['op']]
+            pairs = [pairs[i] for i in sorted(rng.choice(len(pairs), size=min(len(pairs), 10), replace=False))] if pairs else []
+            mids = [m for m, c in enumerate(A) if c['op'] != 'close']
+            sand = [(a + 1, m + 1, b + 1) for a, b in pairs for m in mids if m not in (a, b)]
+            if len(sand) > 160:
+                sand = [sand[i] for i in sorted(rng.choice(len(sand), size=160, replace=False))]
+            items += [(j, h, False) for h in sand]
     par.G['jobs'] = jobs
     for item, res in zip(items, par.pmap(_worker, items)):
         if isinstance(res, par.Crash):
